@@ -47,6 +47,40 @@ def r1_single_writer(ctx, mod):
                              "the recorded output is replaced")
 
 
+def start_mocking_observations(ctx, sym, mod):
+    """_start_mocking executed abstractly for the three print settings; yields (tag, observations)."""
+    from .. import symexec
+    sm = mod.func('Sandbox._start_mocking')
+    for print_setting in (None, True, False):
+        rec = symexec.Recorder()
+        created = []
+
+        def new_buffer(kind):
+            def f(*a, **k):
+                o = Obj('buffer:' + kind, ctor_args=a, ctor_kwargs=k)
+                created.append(o)
+                return o
+            return f
+        older = Obj('buffer:older')
+        builtins = {} if print_setting is None else {'print': print_setting}
+        me = symexec.self_obj(mod, 'Sandbox', _current_stdout=[older], _current_patches=[],
+                              _module_overrides={'__builtins__': builtins, 'os': True}, data={}, modules={})
+        for name in ('mock_function', '_track_inputs', '_reset_builtins', '_mock_builtins', '_start_patches'):
+            symexec.method(me, name, rec.stub(name))
+        patch = rec.stub('patch', fn=lambda *a, **k: Obj('patch', target=a[0] if a else None, args=a, kwargs=k))
+        fd = symexec.new_fd(sym, mod, calls={'io.StringIO': new_buffer('StringIO'), 'StringIO': new_buffer('StringIO'),
+                                             'PrintingStringIO': new_buffer('PrintingStringIO'), 'patch': patch,
+                                             'patch.dict': rec.stub('patch.dict', ret=Obj('patch.dict'))},
+                            extra={'sys.modules': {'sys': 'real-sys'}})
+        _, raised = symexec.run(fd, sm, [Obj('context', inputs=[])], bound_self=me, what='Sandbox._start_mocking')
+        stack = me.attrs['_current_stdout']
+        outs = [e for e in rec.named('patch') if e[1] and e[1][0] == 'sys.stdout']
+        yield '[print=%r]' % (print_setting,), {
+            'raised': raised, 'stack': stack, 'created': created,
+            'patched_with_pushed': raised is None and len(stack) == 2 and len(outs) == 1 and len(outs[0][1]) >= 2
+            and outs[0][1][1] is stack[-1]}
+
+
 def r2_per_execution(ctx, mod, sym):
     ctx.rule('R2', "_start_mocking / _stop_mocking executed abstractly (both print settings, with an older buffer "
                    "already on the stack): start pushes exactly one new, empty buffer and patches sys.stdout with that "
